@@ -126,13 +126,17 @@ package region
 // ---- region client: sent-calls table, in-flight counter, response dispatch ----
 
 //@ func region.(*client).unregisterRPC
+//@   requires c.sent != nil
 //@   modifies D.map[uint32]hrpc.Call, C.map[uint32]hrpc.Call
+//@   ensures[C18,C03] len(c.sent) == old(len(c.sent)) - ite(old(haskey(c.sent, id)), 1, 0)
+//@   ensures[C18,C03] old(haskey(c.sent, id)) ==> r0 == old(c.sent[id])
 //@   panics never[C11,C02,C03]
 //@   ensures[C02,C03] r0 == old(c.sent[id])
 //@   ensures[C02,C03] c.sent[id] == nil
 //@   ensures[C02,C03] forall(k, k != id ==> c.sent[k] == old(c.sent[k]))
 
 //@ func region.returnResult
+//@   modifies F.region.multi.*, M.hrpc.Call, X.delivered, F.pb.GetResponse.Result, F.pb.MutateResponse.Result
 //@   requires c != nil
 //@   requires typeis(c, "*region.multi") && err == nil ==> typeis(msg, "*pb.MultiResponse") && multiWF(cast(c, "*region.multi")) && multiRespOK(cast(c, "*region.multi"), cast(msg, "*pb.MultiResponse")) && pbwf()
 //@   panics never[C11]
@@ -142,15 +146,17 @@ package region
 //@   panics never[C11]
 //@   ensures[C11] r0 != nil
 
-//@ func region.(*client).inFlightDown
-//@   modifies F.region.client.inFlight
-
 // every multi registered in the sent-calls table was built from batchable calls
-//@ pred region.sentWF(c) = forall(k, typeis(c.sent[k], "*region.multi") ==> multiWF(cast(c.sent[k], "*region.multi")))
+//@ pred region.sentWF(c) = forall(k, (haskey(c.sent, k) ==> c.sent[k] != nil) && (typeis(c.sent[k], "*region.multi") ==> multiWF(cast(c.sent[k], "*region.multi"))))
 
 //@ func region.(*client).receive
 //@   requires c.sent != nil && sentWF(c)
+//@   requires inflightInv(c) && netRange(c)
 //@   panics never[C11]
+// one decrement of the outstanding-request count for every call id taken out of the sent table - also when the call's
+// context has expired and whatever kind of call it is (C18)
+//@   ensures[C18] old(len(c.sent)) - len(c.sent) == old(ghostat("net", c)) - ghostat("net", c)
+//@   ensures[C18] len(c.sent) == old(len(c.sent)) || len(c.sent) == old(len(c.sent)) - 1
 
 //@ func region.freeMulti
 //@   requires m != nil
@@ -158,5 +164,52 @@ package region
 //@   panics never[C11]
 
 //@ func region.(*multi).returnResults
+//@   modifies F.region.multi.*, M.hrpc.Call, X.delivered, F.pb.GetResponse.Result, F.pb.MutateResponse.Result
 //@   requires err == nil ==> typeis(msg, "*pb.MultiResponse") && multiWF(m) && multiRespOK(m, cast(msg, "*pb.MultiResponse")) && pbwf()
 //@   panics never[C11]
+
+// ---- accumulation of calls into a multi preserves order (C12) ----
+
+//@ func region.(*multi).add
+//@   modifies F.region.multi.calls
+//@   ensures[C12] len(m.calls) == old(len(m.calls)) + len(calls)
+//@   ensures[C12] forall(k, 0 <= k && k < old(len(m.calls)), m.calls[k] == old(m.calls[k]))
+//@   ensures[C12] forall(k, 0 <= k && k < len(calls), m.calls[old(len(m.calls)) + k] == calls[k])
+//@   ensures[C12] r0 == (len(m.calls) >= m.size)
+
+//@ func region.(*client).registerRPC
+//@   requires c.sent != nil
+//@   modifies F.region.client.id, D.map[uint32]hrpc.Call, V.map[uint32]hrpc.Call, C.map[uint32]hrpc.Call
+//@   ensures[C02] c.sent[r0] == rpc && haskey(c.sent, r0)
+//@   ensures[C02] forall(k, k != r0 ==> c.sent[k] == old(c.sent[k]) && haskey(c.sent, k) == old(haskey(c.sent, k)))
+//@   ensures[C02] r0 == (old(c.id) + 1) % 4294967296 && c.id == r0
+
+// ---- read deadline versus outstanding requests (C18) ----
+// Ghost: net = (#inFlightUp) - (#inFlightDown) as a SIGNED integer (the sender counts a request after writing it, so
+// the reader may count its response first); the code's uint32 counter is net mod 2^32. armed = a read deadline is set.
+//   I: net <= 0 ==> not armed   (an idle connection is never torn down by the read timeout)
+//   J: net >  0 ==> armed       (a silent server is detected within readTimeout of the last request counted)
+// Each operation preserves the coupling and I and J from ANY state that satisfies them: no assumption about which
+// goroutine runs when (only that the section under inFlightM is atomic).
+//@ pred region.inflightInv(c) = c.conn != nil && c.inFlight == ghostat("net", c) % 4294967296 && (ghostat("net", c) <= 0 ==> ghostat("armed", c.conn) == 0) && (ghostat("net", c) > 0 ==> ghostat("armed", c.conn) == 1)
+
+// (fewer than 2^31 requests are ever outstanding on one connection)
+//@ pred region.netRange(c) = -2147483000 < ghostat("net", c) && ghostat("net", c) < 2147483000
+
+//@ func region.(*client).inFlightUp
+//@   requires inflightInv(c) && netRange(c)
+//@   modifies F.region.client.inFlight, X.net, X.armed
+//@   at call Lock#1 ghost net[c] == ghostat("net", c) + 1
+//@   panics never[C18]
+//@   ensures[C18] ghostat("net", c) == old(ghostat("net", c)) + 1
+//@   ensures[C18] r0 == nil ==> inflightInv(c)
+//@   ensures[C18] forall(k, k != c ==> ghostat("net", k) == old(ghostat("net", k)))
+
+//@ func region.(*client).inFlightDown
+//@   requires inflightInv(c) && netRange(c)
+//@   modifies F.region.client.inFlight, X.net, X.armed
+//@   at call Lock#1 ghost net[c] == ghostat("net", c) - 1
+//@   panics never[C18]
+//@   ensures[C18] ghostat("net", c) == old(ghostat("net", c)) - 1
+//@   ensures[C18] r0 == nil ==> inflightInv(c)
+//@   ensures[C18] forall(k, k != c ==> ghostat("net", k) == old(ghostat("net", k)))
